@@ -2,7 +2,7 @@
    O-tie: every bounds check the real code generator emits for the whole family (GenChecks.v, regenerated
    from vyper/codegen/core.py on every run) is syntactically one of the parametric templates of Checks.v. *)
 From Coq Require Import ZArith Bool List String Lia.
-From Verif Require Import Base.Word256 Base.PyInt C03.LIR C03.VSL C04.AllocModel C04.AllocProofs C04.LegacyProofs C04.GenLegacy C04.LegacyTie C04.Frames C04.Concretize C04.MemLiveness C04.Checks C04.GenChecks.
+From Verif Require Import Base.Word256 Base.PyInt C03.LIR C03.VSL C04.AllocModel C04.AllocProofs C04.LegacyProofs C04.GenLegacy C04.LegacyTie C04.Frames C04.Concretize C04.MemLiveness C04.Fmp C04.Checks C04.GenChecks.
 Import ListNotations.
 Open Scope Z_scope.
 
@@ -185,6 +185,27 @@ Theorem no_overlap_if_interfere_sound : forall globals l, no_overlap_if_interfer
 Proof. exact no_overlap_checker_sound. Qed.
 Print Assumptions no_overlap_if_interfere_sound.
 
+(* fmp_lowering: the size rounding emitted for `dalloca` is ceil32 (observed template = vceil32), and bump
+   allocation with LIFO rewinds keeps the live dynamic regions stacked: pairwise disjoint, above the static frame
+   (eom) and below the free-memory pointer; every new region starts at the old pointer, i.e. above all live ones *)
+Theorem observed_fmp_ceil32_is_template : vtemplate_eqb fmp_ceil32_observed vceil32 = true.
+Proof. vm_compute. reflexivity. Qed.
+
+Theorem fmp_ceil32_correct : forall e s, lookup e "p0"%string = Some s -> 0 <= s -> s + 31 < W ->
+  vrun e vceil32 = Val (ceil32z s) /\ ceil32z s mod 32 = 0 /\ s <= ceil32z s < s + 32.
+Proof. exact fmp_ceil32_correct_l. Qed.
+Print Assumptions fmp_ceil32_correct.
+
+Theorem fmp_bump_disjoint : forall ops fmp0 eom fmp live,
+  sizes_ok ops -> eom <= fmp0 -> frun ops (fmp0, []) = (fmp, live) ->
+  ForallOrdPairs (fun a b => fst a + snd a <= fst b) live /\
+  (forall p n, In (p, n) live -> eom <= p /\ p + n <= fmp).
+Proof.
+  intros ops fmp0 eom fmp live P E R. pose proof (fmp_bump_stacked_l ops fmp0 [] eom P E) as S. rewrite R in S.
+  split; [eapply stacked_disjoint; eauto | intros p n I; eapply stacked_bounds; eauto].
+Qed.
+Print Assumptions fmp_bump_disjoint.
+
 (* MemLivenessAnalysis: any tables satisfying the analysis' fixpoint inequations over-approximate true liveness
    (live_after: a path to a read with no complete overwrite in between) and "referenced before"; therefore, if b is
    accessed at instruction i while the value of a (referenced before i) may still be read at/after i, both livesets
@@ -235,6 +256,11 @@ Proof.
   cbv zeta. split; [vm_compute; reflexivity|]. split; [vm_compute; reflexivity|].
   eapply la_read; [left; reflexivity|left; reflexivity].
 Qed.
+
+Example fmp_nonvacuous :
+  vrun [("p0"%string, 33)] vceil32 = Val 64 /\ vrun [("p0"%string, 0)] vceil32 = Val 0 /\
+  frun [FBump 10; FBump 33; FBump 1; FRewind 1%nat; FBump 5] (640, []) = (704, [(640, 32); (672, 32)]).
+Proof. repeat split; vm_compute; reflexivity. Qed.
 
 Example concretize_nonvacuous :
   concretize_out [(0%nat, 1%nat); (1%nat, 2%nat)] [(0, 32)] [(0%nat, 64, 64)] [(1%nat, 64); (2%nat, 32)] = [64; 128; 32] /\
